@@ -126,6 +126,25 @@ def helper_returns_clipped(cls, fn, clip_params):
     return res
 
 
+def param_loop(TT, lp, selfn):
+    """(index variable or None, text of the parameter element, text of its index) when `lp` walks self.parameters:
+    `for i in range(len(self.parameters))` (element self.parameters[i]) or a loop whose variable is bound to
+    self.parameters[<index>] (enumerate / zip / plain iteration)"""
+    info = TT.loop_of(lp)
+    if info is None:
+        return None
+    if isinstance(lp.target, ast.Name) and info.index == lp.target.id and not info.synthetic:
+        hi = text(TT.expand(info.hi, at=lp)) if info.hi is not None else None
+        if (info.lo is None or text(info.lo) == "0") and info.step is None and hi == "len(%s.parameters)" % selfn:
+            return lp.target.id, "%s.parameters[%s]" % (selfn, lp.target.id), lp.target.id
+        return None
+    for v_, el_ in getattr(info, "valid_elems", {}).items():
+        if isinstance(el_, ast.Subscript) and access_path(el_.value) == selfn + ".parameters":
+            iv = [n_.id for n_ in ast.walk(lp.target) if isinstance(n_, ast.Name) and n_.id != v_]
+            return (iv[0] if len(iv) == 1 and not info.synthetic else None), v_, text(el_.slice)
+    return None
+
+
 def r2_mutators(ctx, repo, clip_params):
     for cname in ("PmMutator", "UniformMutator", "NonUniformMutation"):
         cls = repo.cls(cname, "operators")
@@ -142,13 +161,13 @@ def r2_mutators(ctx, repo, clip_params):
             continue
         lp = loops[0]
         out = rets[0].value.id
-        # for i, parameter in enumerate(self.parameters)
-        ok_hdr = isinstance(lp.iter, ast.Call) and access_path(lp.iter.func) == "enumerate" and access_path(lp.iter.args[0]) == selfn + ".parameters" \
-            and isinstance(lp.target, ast.Tuple) and len(lp.target.elts) == 2
-        if not ok_hdr:
+        # the loop walks self.parameters: index variable and the parameter element
+        from ..terms import self_effects_of
+        hdr = param_loop(Terms(fn, self_effects=self_effects_of(repo, cls)), lp, selfn)
+        if hdr is None or hdr[0] is None or hdr[2] != hdr[0]:
             ctx.inconclusive("R2", C, where(mod, lp), "loop header %s not recognised" % text(lp.iter))
             continue
-        iv, pv = lp.target.elts[0].id, lp.target.elts[1].id
+        iv, pv = hdr[0], hdr[1]
         bad = None
         npaths = 0
         for p in Enumerator(loop_counts=(0, 1)).function_paths(body_fn(lp.body, fn.args, lp.lineno)):
@@ -226,15 +245,13 @@ def r2_sbx(ctx, repo, clip_params):
     TS_ = Terms(fn, self_effects=self_effects_of(repo, cls))
     lp = None
     for cand in [s_ for s_ in stmts_of(fn) if isinstance(s_, ast.For)]:
-        info = TS_.loop_of(cand)
-        for v_, el_ in getattr(info, "valid_elems", {}).items() if info is not None else ():
-            if isinstance(el_, ast.Subscript) and access_path(el_.value) == selfn + ".parameters":
-                lp = (cand, info, v_, el_)
+        hdr = param_loop(TS_, cand, selfn)
+        if hdr is not None:
+            lp = (cand, hdr)
     if lp is None:
         ctx.inconclusive("R2", C, where(mod, fn), "per-parameter loop not found")
         return
-    lp, linfo, pv, pel = lp
-    pidx = text(pel.slice)                     # index of the parameter as an expression over the loop index
+    lp, (iv_, pv, pidx) = lp
     coord_idx = set()
     for s_ in stmts_of(lp):
         if isinstance(s_, ast.Assign):
@@ -246,11 +263,10 @@ def r2_sbx(ctx, repo, clip_params):
         ctx.violated("R2", C, where(mod, lp), "child coordinate %s is clipped with the bounds of parameter %s (loop `for %s in %s`): a coordinate is moved and clipped "
                      "inside another parameter's box" % (sorted(coord_idx)[0], pidx, text(lp.target), text(lp.iter)))
         return
-    iv = [n_.id for n_ in ast.walk(lp.target) if isinstance(n_, ast.Name) and n_.id != pv]
-    if len(iv) != 1:
+    if iv_ is None:
         ctx.inconclusive("R2", C, where(mod, lp), "coordinate index of the per-parameter loop not recognised")
         return
-    iv = iv[0]
+    iv = iv_
     bad = None
     npaths = 0
     for p in Enumerator(loop_counts=(0, 1)).function_paths(body_fn(lp.body, fn.args, lp.lineno)):
